@@ -90,7 +90,7 @@ class DefValidator(DefinitionDict):
             def_contents = def_entry.get_definition(def_tag, placeholder_value=placeholder,
                                                     return_copy_of_tag=True)
             if def_contents is not None:
-                if is_def_expand_tag and def_expand_group != def_contents:
+                if is_def_expand_tag and def_expand_group.sorted() != def_contents.sorted():
                     def_issues += ErrorHandler.format_error(ValidationErrors.HED_DEF_EXPAND_INVALID,
                                                             tag=def_tag, actual_def=def_contents,
                                                             found_def=def_expand_group)
